@@ -9,10 +9,35 @@ PID = "C06"
 OPS = "+-*/^"
 PRIMES = [2, 3, 5, 7, 11, 13]
 BLANKS = [" ", "  ", "\t", " \t ", "   "]
+WS_CANDIDATES = ["\t", "\n", "\u000b", "\u000c", "\r", " ", "\u0085", "\u00a0", "\u1680"] + [chr(c) for c in range(0x2000, 0x200b)] + ["\u2028", "\u2029", "\u202f", "\u205f", "\u3000"]
+TOOL_BLANKS = [" ", "\t"]      # set by discover_blanks(): the characters THIS build's lexer treats as a blank in some context
+
+def discover_blanks(binp):
+    """Which characters are blanks is asked of the tool, not assumed: c counts iff the real lexer turns `c`, ` c` or `c ` into one
+    single WHITESPACE token. Space and tab are blanks by the property's own words. The property then demands that every such
+    character is a blank wherever a blank may stand, alone or inside a run (a tool that only knows ASCII blanks is not alarmed;
+    one that takes U+00A0 after a space but not before it is: seeds C05-c, C06-c)."""
+    found = [" ", "\t"]
+    with Driver(binp) as d:
+        for c in WS_CANDIDATES:
+            if c in found:
+                continue
+            for s in (c, " " + c, c + " "):
+                r = d.call({"op": "lex", "s": s})
+                toks = (r.get("ok") or {}).get("tokens")
+                if toks and len(toks) == 1 and toks[0][0] == "WHITESPACE" and toks[0][1] == len(s.encode("utf-8")):
+                    found.append(c)
+                    break
+    return found
+
+def blank_run(rng):
+    n = rng.choice([1, 1, 2, 2, 3])
+    return "".join(rng.choice(TOOL_BLANKS) if rng.random() < 0.7 else rng.choice([" ", "\t"]) for _ in range(n))
 RULE = ("exhaustive: every operator sequence of length 1..5 over {+,-,*,/,^} x every binary bracketing (1,2,5,14,42) with small "
         "distinct prime operands; each shape is spelled with explicit parentheses and with the minimal parentheses the documented "
         "grammar needs (flat where the bracketing is the default one) and laid out with several blank layouts (none where allowed, "
-        "one/several spaces, tabs, leading/trailing blanks); the result list must be exactly [exact value of the intended tree] for "
+        "one/several spaces, tabs, leading/trailing blanks, and runs mixing every character the build's own lexer treats as a blank - asked of "
+        "the tool at the start of the run); the result list must be exactly [exact value of the intended tree] for "
         "every spelling and layout, so all layouts agree. A shape is *discriminating* if its value is unique among all bracketings of "
         "the same operator/operand sequence. Plus parenthesised operands as function arguments, `to` with length units, and random "
         "deeper trees with random layouts. non-trivial = distinct discriminating shape, or distinct to/function/random case with >=2 operators")
@@ -76,6 +101,9 @@ def layout(toks, rng, mode, units=False):
     if mode == "random":
         lead = rng.choice(["", "", " ", "\t", "  "])
         trail = rng.choice(["", "", " ", "\t", "  "])
+    elif mode == "unicode":
+        lead = rng.choice(["", blank_run(rng)])
+        trail = rng.choice(["", blank_run(rng)])
     for i, tk in enumerate(toks):
         if i:
             a = toks[i - 1]
@@ -88,6 +116,8 @@ def layout(toks, rng, mode, units=False):
                 out.append(" " if binary else "")
             elif mode == "tight":
                 out.append("" if tight_ok else " ")
+            elif mode == "unicode":
+                out.append("" if tight_ok and rng.random() < 0.25 else blank_run(rng))
             else:
                 choices = BLANKS + ([""] * 3 if tight_ok else [])
                 out.append(rng.choice(choices))
@@ -170,6 +200,7 @@ def shard_shapes(p):
                     spell.append((style, "tight", layout(tk, rng, "tight")))
                     for _ in range(p["layouts"]):
                         spell.append((style, "random", layout(tk, rng, "random")))
+                    spell.append((style, "unicode", layout(tk, rng, "unicode")))
                 seen = set()
                 for style, mode, text in spell:
                     if text in seen:
@@ -273,7 +304,7 @@ def shard_misc(p):
             v, u = ev_q(t)
             for style in ("full", "min"):
                 tk = tokens(t, style)
-                for mode in ("single", "random", "random"):
+                for mode in ("single", "random", "random", "unicode"):
                     text = layout(tk, rng, mode, units=True)
                     reqs.append({"op": "query", "q": text})
                     meta.append(("to:" + style + ":" + mode, text, (v, PARTS[u]), 2))
@@ -296,7 +327,7 @@ def shard_misc(p):
                 t, want = ("bin", "-", exact.int_lit(7), ("call", "round", [("paren", ("paren", e))])), 7 - exact.round_half_away(v)
             for style in ("full", "min"):
                 tk = tokens(t, style)
-                for mode in ("single", "tight", "random", "random"):
+                for mode in ("single", "tight", "random", "random", "unicode"):
                     text = layout(tk, rng, mode)
                     reqs.append({"op": "query", "q": text})
                     meta.append(("fn:" + style + ":" + mode, text, want, 2))
@@ -309,7 +340,7 @@ def shard_misc(p):
             nops = len(exact.ops_of(e))
             for style in ("full", "min"):
                 tk = tokens(e, style)
-                for mode in ("tight", "random", "random"):
+                for mode in ("tight", "random", "random", "unicode"):
                     text = layout(tk, rng, mode)
                     reqs.append({"op": "query", "q": text})
                     meta.append(("random:" + style + ":" + mode, text, v, nops))
@@ -335,6 +366,7 @@ def run(tier, seed):
     t0 = time.time()
     bins = {k: build.build(k)["vdriver"] for k in ("dbg", "rel")}
     rng = rng_for(seed, PID, "plan")
+    TOOL_BLANKS[:] = discover_blanks(bins["dbg"])          # shards are forked after this point
     seqs = ["".join(s) for n in range(1, 6) for s in itertools.product(OPS, repeat=n)]
     if tier == "quick":
         # all sequences up to length 4 with all bracketings; length 5: every sequence with 6 of its 42 bracketings
@@ -358,7 +390,7 @@ def run(tier, seed):
     return finish(PID, tier, seed, "exploration", acc, RULE, t0,
                   assumptions=["binary + and - need a blank on both sides (`1 -2` is the literal -2 by the lexer's documented number syntax); "
                                "a blank between a function name and `(` is not optional", "Fraction arithmetic is exact"],
-                  extra={"operator_sequences": len(seqs), "all_bracketings_covered": "length<=5 (3905 sequences x 1/2/5/14/42 bracketings; shapes whose exact value is undefined or beyond the size bound are counted as skipped)"},
+                  extra={"blank_characters_of_this_build": ["U+%04X" % ord(c) for c in TOOL_BLANKS], "operator_sequences": len(seqs), "all_bracketings_covered": "length<=5 (3905 sequences x 1/2/5/14/42 bracketings; shapes whose exact value is undefined or beyond the size bound are counted as skipped)"},
                   exhaustive=complete, min_eval=1000)
 
 def replay(path):
